@@ -213,7 +213,7 @@ R9_EXEMPT = {
 }
 
 
-def producer_chain(prog, body, e, depth=0):
+def producer_chain(prog, body, e, depth=0, stop_at_field=False):
     """walk a producer expression down to its root; returns (root_body, root_expr, [adaptor names], bad)
     bad = first adaptor that is not known to preserve logical order"""
     chain = []
@@ -239,6 +239,8 @@ def producer_chain(prog, body, e, depth=0):
             e = e[3][0]
             continue
         if isinstance(e, tuple) and e[0] in ("field", "downcast", "index", "cast"):
+            if stop_at_field and e[0] == "field":
+                return cur_body, e, chain, bad
             e = e[1] if e[0] != "cast" else e[2]
             continue
         return cur_body, e, chain, bad
